@@ -284,3 +284,48 @@ Definition changed_sites (before after_ : list entry) : list N :=
 (* the store of the model as a list of entries, for the correspondence *)
 Definition store_entries (st : store) (slots : list (N * N)) : list entry :=
   flat_map (fun ck => match st (fst ck) (snd ck) with Some v => [(fst ck, snd ck, v)] | None => [] end) slots.
+
+(* ---- caller-owned configuration: the INPUT OBJECTS of a run ----
+   Through the engine API the caller does not pass a configuration VALUE but OBJECTS (EngineConfig / ExecutionConfig / NetworkConfig /
+   GenerationConfig / Override / checks config) and keeps them.  A caller that starts a second run with the same objects carries
+   whatever the first run wrote into them: they belong to the state carried from run to run, like a module-level dict.
+   A write site (Gen_C13.gen_owned_writes, extracted by harness/props/c13_translate.py owned_config_scan) is a place where code
+   reachable from a run assigns into such an object; it is executed by the runs that execute one of its phases. *)
+Record wsite := mkWSite { w_id : N; w_phases : list phase }.
+
+Definition w_runs (phs : list phase) (w : wsite) : bool := existsb (fun p => in_phases p (w_phases w)) phs.
+Definition owned_writes_active (ws : list wsite) (phs : list phase) : list N := map w_id (filter (w_runs phs) ws).
+
+(* one call of the engine: seed, schema, the phases it executes; the configuration is the object the caller holds *)
+Record call := mkCall { k_seed : N; k_schema : N; k_phases : list phase }.
+
+Section Owned.
+  Variable wv : N -> N -> N.     (* what write site i makes of the configuration value c: any function *)
+
+  Definition write_site (phs : list phase) (c : N) (w : wsite) : N := if w_runs phs w then wv (w_id w) c else c.
+  (* the value of the caller's objects after one run / after a sequence of runs that were all given these objects *)
+  Definition cfg_after_run (ws : list wsite) (c : N) (k : call) : N := fold_left (write_site (k_phases k)) ws c.
+  Definition cfg_after (ws : list wsite) (calls : list call) (c : N) : N := fold_left (cfg_after_run ws) calls c.
+
+  (* the inputs the runs REALLY get when the caller reuses its objects ... *)
+  Fixpoint hist_reused (ws : list wsite) (calls : list call) (c : N) : list rin :=
+    match calls with
+    | [] => []
+    | k :: rest => mkRin (k_seed k) (k_schema k) c :: hist_reused ws rest (cfg_after_run ws c k)
+    end.
+  Definition rin_reused (ws : list wsite) (before : list call) (k : call) (c : N) : rin :=
+    mkRin (k_seed k) (k_schema k) (cfg_after ws before c).
+  (* ... and when it builds equal objects from scratch for every run (what the property means by "the same configuration") *)
+  Definition rin_rebuilt (k : call) (c : N) : rin := mkRin (k_seed k) (k_schema k) c.
+  Definition hist_rebuilt (calls : list call) (c : N) : list rin := map (fun k => rin_rebuilt k c) calls.
+
+  Definition no_owned_write (ws : list wsite) (calls : list call) : bool :=
+    forallb (fun k => match owned_writes_active ws (k_phases k) with [] => true | _ => false end) calls.
+End Owned.
+
+(* checked against deep field-by-field dumps of the real configuration objects taken right before and right after real runs
+   (field path token, value token): the fields whose value changed, appeared or disappeared *)
+Definition field_eqb (e e' : N * N) : bool := N.eqb (fst e) (fst e') && N.eqb (snd e) (snd e').
+Definition changed_fields (before after_ : list (N * N)) : list N :=
+  map fst (filter (fun e => negb (existsb (field_eqb e) after_)) before)
+  ++ map fst (filter (fun e => negb (existsb (field_eqb e) before)) after_).
